@@ -118,6 +118,15 @@ class RadShockProfile(BasicShockProfile):
                                           [zero_discriminant_b,
                                            zero_discriminant_a],
                                            xtol = 1.e-13)
+          if not (rho1 > 1. + 1.e-8):
+              # the upstream state (rho = T = 1) and a rarefaction state also
+              # solve the system: restart from the hydrodynamic jump
+              gm1, gp1 = gamma - 1., gamma + 1.
+              rho1, T1 = scipy.optimize.fsolve(momentum_and_energy,
+                             [gp1 * M02 / (gm1 * M02 + 2.),
+                              (2. * gamma * M02 - gm1) * (gm1 * M02 + 2.)
+                              / (gp1 * gp1 * M02)],
+                             xtol = 1.e-13)
           self.Pr1    = T1 * T1 * T1 * T1 / 3.
           self.Er1    = T1 * T1 * T1 * T1
           self.M1     = M0 / rho1 / T1**(0.5)
